@@ -58,11 +58,24 @@ type mergeCall func(a, b []byte) ([]byte, error)
 
 func callMerge(f mergeCall, a, b string) (out []byte, err error, pn *mon.Panic) {
 	pn = mon.Try(func() { out, err = f([]byte(a), []byte(b)) })
+	if pn == nil {
+		pn = retainResult("a merge-patch entry point", out)
+	}
 	return
 }
 
 // judgeMerge checks one MergePatch call against RFC 7396.
+// wsWrap puts legal JSON whitespace (space, tab, LF, CR and mixtures) around a text in one case out of four.
+func wsWrap(c *core.Ctx, t string) string {
+	if c.R.Intn(4) != 0 {
+		return t
+	}
+	ws := []string{" ", "\t", "\n", "\r", "\r\n", " \r ", "\n\t\r "}
+	return ws[c.R.Intn(len(ws))] + t + []string{"", "", "\r", "\n", " \t"}[c.R.Intn(5)]
+}
+
 func judgeMerge(c *core.Ctx, f mergeCall, tag string, docT, patT string) {
+	docT, patT = wsWrap(c, docT), wsWrap(c, patT)
 	doc, pat := mustParse(docT), mustParse(patT)
 	out, err, pn := callMerge(f, docT, patT)
 	c.Eval(1)
